@@ -181,6 +181,45 @@ def second_of(a, seed):
     return b
 
 
+def repack_coords(src, dst, names):
+    """the netCDF file src written again as dst with the 1-D float variables
+    `names` stored PACKED (int16 with scale_factor / add_offset), as archive
+    files commonly store coordinates; everything else copied as it is"""
+    import netCDF4
+    done = []
+    with netCDF4.Dataset(src) as i, netCDF4.Dataset(
+            dst, 'w', format=i.data_model) as o:
+        for k, dm in i.dimensions.items():
+            o.createDimension(k, None if dm.isunlimited() else len(dm))
+        o.setncatts({k: i.getncattr(k) for k in i.ncattrs()})
+        for k, v in i.variables.items():
+            atts = {a: v.getncattr(a) for a in v.ncattrs()
+                    if a != '_FillValue'}
+            pack = k in names and v.ndim == 1 and v.dtype.kind == 'f' and \
+                v.shape[0] > 0 and not np.ma.is_masked(v[:])
+            if pack:
+                vals = np.asarray(v[:], 'f8')
+                off = float(np.floor(vals.min()))
+                if (vals.max() - off) / 0.25 > 30000:
+                    pack = False
+            if pack:
+                ov = o.createVariable(k, 'i2', v.dimensions)
+                ov.setncatts(atts)
+                ov.scale_factor = np.float32(0.25)
+                ov.add_offset = np.float32(off)
+                ov[:] = vals
+                done.append(k)
+            else:
+                fv = v.getncattr('_FillValue') if '_FillValue' in \
+                    v.ncattrs() else None
+                ov = o.createVariable(k, v.dtype, v.dimensions,
+                                      fill_value=fv)
+                ov.setncatts(atts)
+                if v.shape == () or 0 not in v.shape:
+                    ov[...] = v[...]
+    return done
+
+
 def run_binop(spec, res, a=None):
     from PseudoNetCDF.core._functions import pncbo
     if a is not None:
@@ -198,6 +237,24 @@ def run_binop(spec, res, a=None):
         with harness.casedir() as d, harness.handles() as h:
             a2 = harness.to_disk(a, d, h, name='a.nc')
             b2 = harness.to_disk(b, d, h, name='b.nc')
+            if a2 is not None and b2 is not None and spec['seed'] % 2 == 0:
+                # the left operand's coordinate variables are stored packed
+                # on disk (short integers with scale_factor / add_offset)
+                try:
+                    import os
+                    import PseudoNetCDF as pnc
+                    a2.close()
+                    done = repack_coords(os.path.join(d, 'a.nc'),
+                                         os.path.join(d, 'ap.nc'),
+                                         set(coords) | set(a.dimensions))
+                    a2 = h.keep(pnc.pncopen(os.path.join(d, 'ap.nc'),
+                                            format='netcdf'))
+                    if done:
+                        res.facet('operands:disk-packed-coordinates')
+                except Exception as e:
+                    res.note('repack-failed:%s' % type(e).__name__)
+                    a2 = h.keep(pnc.pncopen(os.path.join(d, 'a.nc'),
+                                            format='netcdf'))
             if a2 is not None and b2 is not None:
                 # (a file opened from disk declares its dimension-named
                 # variables coordinates by itself)
